@@ -77,6 +77,14 @@ func judge(data []byte, res []result, di *dialectInfo, key *[32]byte) ([]ref.Fra
 			if !ref.EqualMsg(m, want) {
 				return nil, fmt.Errorf("call %d: decoded message differs from the reference decoding of payload %x:\n got  %+v\n want %+v", i, p.Payload, m, want)
 			}
+			// the frame object carries a checksum of its own: it is the one of the frame this object stands for -
+			// the received header with the message in its version's encoding (the received payload itself
+			// whenever that is how the message is encoded)
+			q := p
+			q.Payload = lay.Encode(want, p.V2)
+			if wantSum := q.ChecksumFor(lay.CRCExtra); g.Checksum != wantSum {
+				return nil, fmt.Errorf("call %d delivered %s (v2=%v) consumed as %x: the frame object says checksum %#04x; the frame with this header and this message (payload %x) has %#04x, the consumed bytes carry %#04x", i, lay.MsgName, p.V2, span, g.Checksum, q.Payload, wantSum, p.Checksum)
+			}
 		} else {
 			if m != nil {
 				return nil, fmt.Errorf("call %d: id %d not in dialect but delivered decoded", i, p.ID)
